@@ -770,7 +770,7 @@ static uint32_t read_universal_char(char *p, int len) {
 }
 
 // Replace \u or \U escape sequences with corresponding UTF-8 bytes.
-static void convert_universal_chars(char *p) {
+void convert_universal_chars(char *p) {
   char *q = p;
 
   while (*p) {
